@@ -1117,8 +1117,8 @@ package mail
 
 // C11 (continued): the scratch buffer in which writeBody collects the (encoded) content starts empty - what is copied
 // to the destination afterwards is what this producer produced, nothing left over from an earlier body
-//@ at mail.msgWriter.writeBody mail.msgWriter.writeBody.writeFunc#1 before assert[C11:scratch-buffer-starts-empty] arg0.sinkacc == 0 && arg0.rpos == 0
-//@ at mail.msgWriter.writeBody mail.msgWriter.writeBody.writeFunc#2 before assert[C11:scratch-buffer-starts-empty] arg0.wtarget.sinkacc == 0 && arg0.wtarget.rpos == 0 && (arg0.enckind == 2 ==> as(arg0.wtarget, "*mail.base64LineBreaker").out.sinkacc == 0)
+//@ at mail.msgWriter.writeBody mail.msgWriter.writeBody.writeFunc#1 before assert[C11,C03:scratch-buffer-starts-empty] arg0.sinkacc == 0 && arg0.rpos == 0
+//@ at mail.msgWriter.writeBody mail.msgWriter.writeBody.writeFunc#2 before assert[C11,C03:scratch-buffer-starts-empty] arg0.wtarget.sinkacc == 0 && arg0.wtarget.rpos == 0 && (arg0.enckind == 2 ==> as(arg0.wtarget, "*mail.base64LineBreaker").out.sinkacc == 0)
 
 // C10 (continued): the To / Cc / Bcc addresses handed to the Msg are the canonical rendering (Address.String, which
 // net/mail parses back to the same address) of exactly the addresses that were parsed, in order
@@ -1257,3 +1257,20 @@ package mail
 //@   loop 2 invariant[C09:stream] multipartReader != nil && multipartReader.rem >= 0 && multipartReader.rem <= athead(1, multipartReader.rem)
 //@   loop 2 invariant[C09:stream] err == nil ==> multipartReader.rem < athead(1, multipartReader.rem) && multiPart.rem <= multipartReader.rem
 //@   loop 2 decreases[C09:every-round-passes-a-part] 2 * multipartReader.rem + (err == nil ? 1 : 0)
+
+// ---------------------------------------------------------------------------
+// Round 11
+// C07: the tls.Config a caller hands to the Client is the caller's object - it may be shared between Clients for
+// different hosts. Storing it is all the setters do: a default written into it (a ServerName, say) would become the
+// verification name of every other Client that uses the same object (declared frames: everything else is unchanged).
+//@ func mail.Client.SetTLSConfig (tlsconfig) (err)
+//@   requires[C07:wf] c != nil
+//@   modifies[C07:callers-tls-config-only-stored] c.tlsconfig
+//@   ensures[C07:callers-tls-config-only-stored] tlsconfig != nil ==> c.tlsconfig == tlsconfig
+//@ func mail.WithTLSConfig$1 (c) (err)
+//@   requires[C07:wf] c != nil
+//@   modifies[C07:callers-tls-config-only-stored] c.tlsconfig
+//@   ensures[C07:callers-tls-config-only-stored] tlsconfig != nil ==> c.tlsconfig == tlsconfig
+// C11: WriteToFile agrees with the other output paths only when the file holds the rendering and nothing else: the
+// target is created empty or truncated (os.Create; an os.OpenFile without O_TRUNC keeps the tail of a longer file).
+//@ at mail.Msg.WriteToFile mail.Msg.WriteTo#* before assert[C11:file-holds-the-rendering-only] arg1.truncated
